@@ -149,7 +149,7 @@ def bi_len(E, args, kwargs, node):
             return VC(len(v.v))
         except TypeError as e:
             _raise('TypeError', str(e))
-    if isinstance(v, VS):
+    if isinstance(v, VS) or isinstance(v, VBy):
         return VI(z3.Length(v.t))
     if isinstance(v, VT):
         return VC(len(v.items))
@@ -462,11 +462,17 @@ def bi_ord(E, args, kwargs, node):
 
 
 def call_builtin(E, name, args, kwargs, node):
+    if name == 'bytes.decode' and args and isinstance(args[0], VBy):
+        from . import bytesmodel
+        return bytesmodel.method(E, 'decode', args, kwargs)
     fn = TABLE.get(name)
     if fn is not None:
         return fn(E, args, kwargs, node)
     if name in EXC_PARENT:
         return VExc(exc_canon(name), args)
+    if name.startswith('bytes.') and args and (isinstance(args[0], VBy) or (isinstance(args[0], VC) and isinstance(args[0].v, bytes))):
+        from . import bytesmodel
+        return bytesmodel.method(E, name[6:], args, kwargs)
     if name.startswith('str.'):
         from . import strings
         return strings.str_method(E, name[4:], args, kwargs)
